@@ -128,6 +128,9 @@ class SimRawIO(io.RawIOBase):
 
     def close(self):
         if not self.closed:
+            if self.fs.lock_close_hook is not None and self.fs.is_lockfile(self.path):
+                # POSIX: closing ANY descriptor of a file drops the process's record locks on it
+                self.fs.lock_close_hook(self.fs.pid_of(), self.path)
             try:
                 super().close()
             finally:
@@ -211,6 +214,7 @@ class SimFS:
         raise ProcessDied()
 
     on_death = None
+    lock_close_hook = None
 
     quiet_reads = 0      # >0: reads are not yield points (inside an atomic parse)
 
